@@ -294,7 +294,13 @@ func (x *World) buildFilter(spec *model.FilterSpec) api.Filter {
 	if spec.Exclusive {
 		fl.Exclusive()
 	} else if spec.Without != 0 {
-		fl.Without(spec.Without.List()...)
+		if spec.Unsafe {
+			fl.Without(spec.Without.List()...) // UnsafeFilter.Without replaces previous excludes (documented)
+		} else {
+			for _, c := range spec.Without.List() { // typed filters accumulate over chained calls
+				fl.Without(c)
+			}
+		}
 	}
 	if len(spec.Rels) > 0 {
 		fl.Relations(x.relArgs(spec.Rels))
